@@ -116,6 +116,7 @@ class Capture:
 
     def __init__(self):
         self.kr, self.blocks, self.solves, self.lstsq, self.halsruns = [], [], [], [], []
+        self.hooi_svds, self.p2_projs = [], []
         self.maxcond = 0.0
         self._saved = []
 
@@ -193,6 +194,30 @@ class Capture:
                 cap.blocks.append(dict(k, G=G.copy(), xnew=run["result"].T.copy(), kind="hals", cond=0.0, hals=run))
             return res
         self._patch(_nn_cp, "hals_nnls", hals)
+        # answer tapes of the two spectral oracles (hypotheses of the _partial theorems)
+        try:
+            from tensorly.decomposition import _tucker, _parafac2
+            if hasattr(_tucker, "svd_interface"):
+                osvd = _tucker.svd_interface
+
+                def svd_t(matrix, *a, **kw):
+                    res = osvd(matrix, *a, **kw)
+                    if len(cap.hooi_svds) < 400:
+                        cap.hooi_svds.append(dict(Y=np.array(matrix, dtype=float), U=np.array(res[0], dtype=float), n=kw.get("n_eigenvecs")))
+                    return res
+                self._patch(_tucker, "svd_interface", svd_t)
+            if hasattr(_parafac2, "_compute_projections"):
+                oproj = _parafac2._compute_projections
+
+                def proj(tensor_slices, factors, *a, **kw):
+                    res = oproj(tensor_slices, factors, *a, **kw)
+                    if len(cap.p2_projs) < 200:
+                        cap.p2_projs.append(dict(slices=[np.array(t, dtype=float) for t in tensor_slices], factors=[np.array(f, dtype=float) for f in factors],
+                                                 P=[np.array(q, dtype=float) for q in res]))
+                    return res
+                self._patch(_parafac2, "_compute_projections", proj)
+        except Exception:
+            pass
         return self
 
     def __exit__(self, *a):
@@ -241,6 +266,15 @@ class Ctx:
 
     def add_case(self, kind, lit_fn, payload, descr):
         """register a candidate; `select` keeps a budgeted, variant-balanced subset for Coq"""
+        def finite(v):
+            if isinstance(v, (list, tuple)):
+                return all(finite(x) for x in v)
+            if isinstance(v, (np.ndarray, float, int, np.floating)):
+                return bool(np.all(np.isfinite(v)))
+            return True
+        if not all(finite(v) for v in payload.values()):
+            self.skipped_illcond += 1       # exact rationals cannot carry inf / nan: not a case for the model
+            return
         group = (descr["entry"], str(descr["inputs"].get("variant")), descr["inputs"].get("kind"))
         self.cands[kind].append((group, lit_fn, payload, descr))
 
@@ -354,6 +388,45 @@ def hals_float_check(ctx, entry, inputs, run):
     if i is not None and np.all(its[0] >= run["eps"]):
         ctx.chk.finding(entry, inputs, f"inner hals_nnls objective increases at pass {i}->{i + 1}: {objs[i]!r} -> {objs[i + 1]!r}",
                         "C07_hals_history_monotone", observed=objs, expected="non-increasing")
+
+
+def check_hooi_tape(ctx, entry, inputs, cap, hooi_only_after=0):
+    """hypotheses of C07_hooi_block_descent_partial on the SVD answers used by the HOOI blocks: orthonormal columns, and the
+    Ky Fan value  ||U'Y||_F^2 = sum of the r largest squared singular values of Y (independent numpy SVD)"""
+    for j, t in enumerate(cap.hooi_svds[hooi_only_after:]):
+        Y, U = t["Y"], t["U"]
+        r = U.shape[1]
+        if U.shape[0] != Y.shape[0] or r > min(Y.shape):
+            continue
+        ctx.py_blocks += 1
+        sv = np.linalg.svd(Y, compute_uv=False)
+        best, got = float(np.sum(sv[:r] ** 2)), float(np.sum((U.T @ Y) ** 2))
+        orth = float(np.max(np.abs(U.T @ U - np.eye(r))))
+        if orth > 1e-8 or got < best - 1e-9 * (float(np.sum(sv ** 2)) + 1e-300):
+            ctx.chk.finding(entry, dict(inputs, svd_call=j), f"HOOI factor is not a set of leading left singular vectors: ||U'Y||^2 = {got!r} < {best!r} "
+                            f"or columns not orthonormal (defect {orth:.2e})", "C07_hooi_block_descent_partial (Ky Fan hypothesis)", observed=got, expected=best)
+
+
+def check_p2_tape(ctx, entry, inputs, cap):
+    """hypotheses of C07_parafac2_projection_descent_partial on the projections computed by the implementation: orthonormal
+    columns, and the Procrustes value  <P_i, X_i M_i'> = nuclear norm of X_i M_i'  with M_i = B diag(a_i) C'"""
+    for j, t in enumerate(cap.p2_projs):
+        A, B, Cm = t["factors"]
+        for i, (Xi, P) in enumerate(zip(t["slices"], t["P"])):
+            M = (B * A[i][None, :]) @ Cm.T
+            Z = Xi @ M.T
+            if P.shape != Z.shape or P.shape[1] > P.shape[0]:
+                continue
+            ctx.py_blocks += 1
+            sv = np.linalg.svd(Z, compute_uv=False)
+            best, got = float(np.sum(sv)), float(np.sum(P * Z))
+            orth = float(np.max(np.abs(P.T @ P - np.eye(P.shape[1]))))
+            if sv[-1] < 1e-6 * sv[0]:
+                continue        # (numerically) rank-deficient cross product: the polar factor is not unique / ill conditioned
+            if orth > 1e-8 or got < best - 1e-9 * (best + 1e-300):
+                ctx.chk.finding(entry, dict(inputs, projection_call=j, slice=i), f"PARAFAC2 projection is not the Procrustes maximiser: <P, X M'> = {got!r} < {best!r} "
+                                f"or columns not orthonormal (defect {orth:.2e})", "C07_parafac2_projection_descent_partial (Procrustes hypothesis)", observed=got, expected=best)
+                return
 
 
 def cp_objective_rel(X, w, facs, lam=0.0):
@@ -517,6 +590,8 @@ def run_hals_nnls(ctx, n_runs):
         V0 = r.rand(rk, n) + eps + 0.05
         its = [] if default_init else [V0.copy()]
         kw = dict(n_iter_max=4, tol=0, sparsity_coefficient=l1, ridge_coefficient=l2, epsilon=eps)
+        nzr = (it % 9 == 7 and not zero_col)     # nonzero_rows=True: an all-zero row is lifted to machine-epsilon size (not in the model)
+        if nzr: kw["nonzero_rows"] = True
         inputs = dict(UtU=G, UtM=B, V0=None if default_init else V0, options=kw)
         attempt(ctx, entry)
         out = C.call_impl(lambda: hals_nnls(B.copy(), G.copy(), None if default_init else V0.copy(),
@@ -525,6 +600,12 @@ def run_hals_nnls(ctx, n_runs):
         if out[0] != "ok":
             raised(ctx, entry, out[1]); continue
         ctx.judged[entry] = ctx.judged.get(entry, 0) + 1
+        if its and not np.all(np.isfinite(its[0])):
+            # the statement is about passes started from an iterate; a non-finite starting point (produced by the default
+            # initialisation, not by a pass) says nothing about descent: skipped and counted
+            ctx.skipped_illcond += 1
+            chk.hist("raised", entry + ": non-finite initial iterate")
+            continue
         objs = [hals_objective(G, B, V, l1 or 0.0, l2 or 0.0) for V in its]
         scale = float(np.sum(np.abs(B)) + 1.0)
         chk.count(key=("hals_nnls", m, rk, n, l1, l2, eps, zero_col, default_init), nontrivial=True)
@@ -534,7 +615,8 @@ def run_hals_nnls(ctx, n_runs):
                         "C07_hals_history_monotone", observed=objs, expected="non-increasing")
         if any(np.any(V < eps) for V in its[1:]):
             chk.finding(entry, inputs, "iterate below epsilon", "C07_hals_feasible")
-        add_hals_case(ctx, entry, inputs, dict(G=G, B=B, iterates=its, l1=l1 or 0.0, l2=l2 or 0.0, eps=eps))
+        if not nzr:
+            add_hals_case(ctx, entry, inputs, dict(G=G, B=B, iterates=its, l1=l1 or 0.0, l2=l2 or 0.0, eps=eps))
 
 
 def run_tucker(ctx, n_runs):
@@ -563,11 +645,14 @@ def run_tucker(ctx, n_runs):
             kw = dict(rank=ranks, tol=0, init=init, random_state=r.randint(1 << 30), return_errors=True)
         inputs = dict(shape=list(shape), rank=ranks, variant=init + ("+partial" + str(list(modes)) if partial else ""), tensor=X, options=kw)
         attempt(ctx, entry)
-        out = C.call_impl(fn, X.copy(), n_iter_max=8, **kw)
+        with Capture() as cap:
+            out = C.call_impl(fn, X.copy(), n_iter_max=8, **kw)
         chk.hist("algorithm", ("partial_tucker:" if partial else "tucker:") + init); chk.hist("order", nd)
         if out[0] != "ok":
             raised(ctx, entry, out[1]); continue
         history_check(ctx, entry, inputs, out[1][1])
+        # SVD calls of the initialisation come first (init='svd': one per mode); every later one is a HOOI block
+        check_hooi_tape(ctx, entry, inputs, cap, hooi_only_after=(len(modes) if init == "svd" else 0))
         # objective recomputed from prefix runs: || X - core x_modes factors || / ||X||
         objs, ok = [], True
         for nit in range(1, 6):
@@ -589,7 +674,7 @@ def run_parafac2(ctx, n_runs):
     for it in range(n_runs):
         r = np_rng(rng)
         I, J, K, rank = rng.choice([3, 4]), rng.choice([4, 5]), rng.choice([3, 4]), rng.choice([1, 2, 2])
-        variant = ["plain", "linesearch", "nn", "nn+linesearch", "normalize"][it % 5]
+        variant = ["plain", "normalize", "linesearch", "nn", "normalize+linesearch", "nn+linesearch"][it % 6]
         nonneg = "nn" in variant
         A = (r.rand(I, rank) + 0.3) * (1 if nonneg else r.choice([-1.0, 1.0], size=(I, rank)))
         Bm = r.rand(rank, rank) + np.eye(rank)
@@ -602,15 +687,17 @@ def run_parafac2(ctx, n_runs):
         ls = "linesearch" in variant
         kw = dict(tol=1e-300, init="random", random_state=r.randint(1 << 30), linesearch=ls, return_errors=True)
         if nonneg: kw["nn_modes"] = [0, 2]
-        if variant == "normalize": kw["normalize_factors"] = True
+        if "normalize" in variant: kw["normalize_factors"] = True
         nmax = 14 if ls else 7
         inputs = dict(shape=[I, J, K], rank=rank, variant=variant, slices=slices, options=kw)
         attempt(ctx, entry)
-        out = C.call_impl(_parafac2.parafac2, [s.copy() for s in slices], rank, n_iter_max=nmax, timeout=60, **kw)
+        with Capture() as cap:
+            out = C.call_impl(_parafac2.parafac2, [s.copy() for s in slices], rank, n_iter_max=nmax, timeout=60, **kw)
         chk.hist("algorithm", "parafac2:" + variant)
         if out[0] != "ok":
             raised(ctx, entry, out[1]); continue
         history_check(ctx, entry, inputs, out[1][1])
+        check_p2_tape(ctx, entry, inputs, cap)
         # objective recomputed from prefix runs: sqrt(sum_i ||X_i - P_i B diag(a_i) C'||^2) / ||X||
         n2 = math.sqrt(sum(float(np.sum(sl ** 2)) for sl in slices))
         objs, ok = [], True
@@ -845,7 +932,7 @@ def run_regressors(ctx, n_runs):
 
 def PLAN(quick):
     return [(run_parafac, 48 if quick else 400), (run_nn_hals, 18 if quick else 120), (run_hals_nnls, 36 if quick else 300),
-            (run_tucker, 18 if quick else 120), (run_parafac2, 10 if quick else 60), (run_p2_linestep, 12 if quick else 80), (run_tr_als, 12 if quick else 80),
+            (run_tucker, 18 if quick else 120), (run_parafac2, 15 if quick else 72), (run_p2_linestep, 12 if quick else 80), (run_tr_als, 12 if quick else 80),
             (run_cmtf, 12 if quick else 80), (run_regressors, 12 if quick else 60)]
 
 
